@@ -86,6 +86,30 @@ def check_pairs(acc: Acc, name: str, grid: list[float], exact_grid: bool, lattic
             k = int(np.argmax(~np.isclose(vals, ref_diag, rtol=0, atol=1e-15))) if vals.shape == ref_diag.shape else 0
             acc.violate("operand-kind", {"norm": name, "operands": kind}, {"norm": name, "a": grid[k], "b": grid[k]}, float(ref_diag[k]),
                         vals.tolist()[:5], f"{name}: {kind} operands give different values than the scalar calls (first at {grid[k]})")
+    # broadcasting operand kinds: column x row, scalar (float and 0-d array) with an array on either side
+    def same_arrays(x, y):
+        x = np.asarray(x, dtype=float)
+        return x.shape == np.shape(y) and bool(np.all((x == y) | (np.isnan(x) & np.isnan(y))))
+
+    def outcome(fn):
+        try:
+            return fn()
+        except Exception as ex:  # noqa: BLE001
+            return f"{type(ex).__name__}: {str(ex)[:60]}"
+
+    col = g.reshape(-1, 1)
+    variants = [("column-row", outcome(lambda: impl.compute(col, g)), M, 0), ("row-column", outcome(lambda: impl.compute(g, col)), M.T, 0)]
+    for i, a in enumerate(grid):
+        variants.append(("scalar-array", outcome(lambda: impl.compute(a, g)), M[i, :], i))
+        variants.append(("array-scalar", outcome(lambda: impl.compute(g, a)), M[:, i], i))
+        variants.append(("0d-array", outcome(lambda: impl.compute(np.array(a), g)), M[i, :], i))
+    for kind, got, want_arr, i in variants:
+        acc.cls("broadcast_calls")
+        if isinstance(got, str) or not same_arrays(got, want_arr):
+            acc.violate("operand-kind", {"norm": name, "operands": kind}, {"norm": name, "a": grid[i], "b": grid[i]}, np.asarray(want_arr).ravel().tolist()[:5],
+                        got if isinstance(got, str) else np.asarray(got, dtype=float).ravel().tolist()[:5],
+                        f"{name}: {kind} operands (scalar/row {grid[i]}) give different values than the elementwise 2-D call")
+            break
     n = len(grid)
     # order/range relations: no slack on the dyadic grid (every operation is exact or correctly rounded from an exact
     # value, so rounding is monotone); 1e-12 on the non-dyadic lattice where e.g. (a+1)-1 != a is plain rounding
